@@ -2,7 +2,7 @@
 """Seeded-fault matrix: apply each mutants/<ID>-*.patch (or seeded/<name>/patch.diff) to a scratch copy of /repo,
 run `./check <ID> <tier>` with VERIF_REPO pointing at it and expect exit 1.
 
-usage: tools/selftest_mutants.py [--tier quick] [--tests] [ID-or-patch ...]
+usage: tools/selftest_mutants.py [--tier quick] [--tests] [-j N] [ID-or-patch ...]
 """
 import glob
 import json
@@ -26,6 +26,7 @@ def main():
     args = sys.argv[1:]
     tier = "quick"
     run_tests = False
+    jobs = 1
     sel = []
     while args:
         a = args.pop(0)
@@ -33,6 +34,8 @@ def main():
             tier = args.pop(0)
         elif a == "--tests":
             run_tests = True
+        elif a == "-j":
+            jobs = int(args.pop(0))
         else:
             sel.append(a)
     patches = []
@@ -43,38 +46,38 @@ def main():
         patches.append((meta["property"], os.path.join(os.path.dirname(m), "patch.diff")))
     if sel:
         patches = [(i, p) for i, p in patches if any(s == i or s in p for s in sel)]
-    rows = []
-    for prop, patch in patches:
+    def one(item):
+        prop, patch = item
         d = scratch_copy()
         try:
             r = subprocess.run(["patch", "-p1", "-s", "-i", patch], cwd=d, capture_output=True, text=True)
             if r.returncode != 0:
-                rows.append((prop, patch, "PATCH-FAILED", 0, r.stdout[-200:]))
-                continue
+                return (prop, os.path.relpath(patch, ROOT), "PATCH-FAILED", 0, r.stdout[-200:].replace("\n", " "))
             tests = ""
             if run_tests:
                 t = subprocess.run(["/venv/bin/python", "-m", "pytest", "-q", "-x", "-p", "no:cacheprovider", "-n", "8", "tests"],
                                    cwd=d, capture_output=True, text=True, env=dict(os.environ, PYTHONPATH=d, PYTHONDONTWRITEBYTECODE="1"))
                 tests = "tests:" + ("pass" if t.returncode == 0 else "FAIL")
             t0 = time.time()
-            evp = os.path.join(ROOT, "evidence", "%s.json" % prop)
-            saved = open(evp).read() if os.path.exists(evp) else None
+            # VERIF_REPO != /repo: the runner writes evidence and replays for the scratch tree under .work/, never under evidence/
             env = dict(os.environ, VERIF_REPO=d)
+            if jobs > 1:
+                env["VERIF_JOBS"] = str(max(4, 16 // jobs + 2))
             c = subprocess.run([os.path.join(ROOT, "check"), prop, tier], cwd=ROOT, env=env, capture_output=True, text=True)
-            # the evidence file was written for the scratch tree; never keep it
-            if saved is not None:
-                open(evp, "w").write(saved)
-            elif os.path.exists(evp):
-                os.remove(evp)
             mech = [l.split("mechanism=")[1].split()[0] for l in c.stdout.splitlines() if l.startswith("VIOLATION") and "mechanism=" in l]
             status = {0: "MISSED", 1: "caught", 2: "INCONCLUSIVE"}.get(c.returncode, "rc%d" % c.returncode)
-            rows.append((prop, os.path.relpath(patch, ROOT), status, round(time.time() - t0, 1), tests + " " + ",".join(sorted(set(mech)))[:150]))
             if c.returncode == 2:
                 print(c.stdout[-1500:])
+            return (prop, os.path.relpath(patch, ROOT), status, round(time.time() - t0, 1), tests + " " + ",".join(sorted(set(mech)))[:150])
         finally:
             shutil.rmtree(d, ignore_errors=True)
-            # replays written for scratch trees are not kept
-        print("%-4s %-44s %-12s %6.1fs %s" % rows[-1], flush=True)
+
+    rows = []
+    from concurrent.futures import ThreadPoolExecutor
+    with ThreadPoolExecutor(max_workers=jobs) as ex:
+        for row in ex.map(one, patches):
+            rows.append(row)
+            print("%-4s %-44s %-12s %6.1fs %s" % row, flush=True)
     missed = [r for r in rows if r[2] != "caught"]
     print("\n%d/%d caught" % (len(rows) - len(missed), len(rows)))
     return 1 if missed else 0
